@@ -524,12 +524,12 @@ int main(int argc, char **argv) {
     std::vector<Ent> t_bcrs = { {"double", bcrs_case<double>}, {"float", bcrs_case<float>} };
     std::vector<Ent> t_eigen = { {"double", eigen_case<double>}, {"float", eigen_case<float>}, {"complex<double>", eigen_case<Z>} };
     std::vector<Ent> t_hyb = { {"static_matrix<double,2,2>", hybrid_case<static_matrix<double,2,2>>}, {"static_matrix<double,3,3>", hybrid_case<static_matrix<double,3,3>>}, {"static_matrix<double,4,4>", hybrid_case<static_matrix<double,4,4>>} };
-    run_table("spmv", t_spmv, vf::tier(16, 300));
-    run_table("vecops", t_vec, vf::tier(8, 120));
-    run_table("mixed", t_mixed, vf::tier(16, 300));
-    run_table("bcrs", t_bcrs, vf::tier(40, 800));
-    run_table("eigen", t_eigen, vf::tier(20, 400));
-    run_table("hybrid", t_hyb, vf::tier(30, 500));
+    run_table("spmv", t_spmv, vf::tier(40, 600));
+    run_table("vecops", t_vec, vf::tier(20, 300));
+    run_table("mixed", t_mixed, vf::tier(40, 600));
+    run_table("bcrs", t_bcrs, vf::tier(100, 2000));
+    run_table("eigen", t_eigen, vf::tier(50, 1000));
+    run_table("hybrid", t_hyb, vf::tier(80, 1200));
     if (vf::sub_enabled("spmv_exhaustive")) sub_exhaustive();
     return vf::finish();
 }
